@@ -23,11 +23,41 @@ type MultiPassReader struct {
 	rs          io.ReadSeeker
 	passesCount int
 	passesLimit int
+	passRead    int // bytes read in the current pass
+
+	// progress tracking (optional): reader ends after two passes in a row without Progress() call,
+	// e.g. source with blanks only, which would be repeated forever with unlimited passes.
+	trackProgress bool
+	progress      bool
+	idlePasses    int
 }
+
+// TrackProgress makes reader finish after two passes in a row without Progress() call.
+func (r *MultiPassReader) TrackProgress() { r.trackProgress = true }
+
+// Progress should be called by reader user, when something useful was read, e.g. ammo was decoded.
+func (r *MultiPassReader) Progress() { r.progress = true }
 
 func (r *MultiPassReader) Read(p []byte) (n int, err error) {
 	n, err = r.rs.Read(p)
+	r.passRead += n
 	if err == io.EOF {
+		if r.passRead == 0 {
+			// Empty source: there is nothing to repeat, don't return (0, nil) forever.
+			return
+		}
+		r.passRead = 0
+		if r.trackProgress {
+			if r.progress {
+				r.idlePasses = 0
+			} else {
+				r.idlePasses++
+			}
+			r.progress = false
+			if r.idlePasses >= 2 {
+				return
+			}
+		}
 		r.passesCount++
 		if r.passesLimit <= 0 || r.passesCount < r.passesLimit {
 			_, err = r.rs.Seek(0, io.SeekStart)
